@@ -14,11 +14,11 @@ def run(tier, seed, jobs):
     configs = []
     o = {"pairs": True, "fine": True}
     if tier == "quick":
-        sems = [(1, None, False), (2, 2, True), (0, 1, False)]
+        sems = [(1, None, False), (2, 2, True), (0, 1, False), (0, 0, False)]
         lims = [dict(n=3, total=1, totals=[0, 1, 2, "inf"], foreign=True)]
     else:
         sems = [(v, m, f) for v in (0, 1, 2) for m in (None, v, v + 1) for f in (False, True)
-                if not (m == 0)]
+                ]
         lims = [dict(n=3, total=t, totals=[0, 1, 2, 3, "inf"], foreign=True)
                 for t in (0, 1, 2, "inf")] + [dict(n=4, total=2, totals=[1, 2, 3], foreign=False)]
     for v, m, f in sems:
